@@ -9,38 +9,38 @@ PROP = Prop(
     harness="c32", harness_kind="test", tags="verif synctests", driver="C32", group_by_reset=True,
     models=[("pkg/kfake/data.go", ["Cluster.pushBatch", "partData.recalculateLSO", "Cluster.trimLeft", "partData.trimAbortedTxns", "partData.searchOffset"]),
             ("pkg/kfake/00_produce.go", ["Cluster.handleProduce"]),
-            ("pkg/kfake/01_fetch.go", ["Cluster.handleFetch", "fetchSessions.getOrCreate", "fetchSession.updatePartition", "fetchSession.updateAndFilterResponse"]),
+            ("pkg/kfake/01_fetch.go", ["Cluster.handleFetch", "fetchSessions.getOrCreate", "fetchSession.updatePartition", "fetchSession.updateAndFilterResponse", "watchFetch.push", "watchFetch.addBytes"]),
+            ("pkg/kfake/cluster.go", ["Cluster.MoveTopicPartition"]),
             ("pkg/kfake/21_delete_records.go", ["Cluster.handleDeleteRecords"]),
             ("pkg/kfake/txns.go", ["pids.doInitProducerID", "pids.doAddPartitions", "pids.doEnd", "pids.get", "pids.getOrCreateNonTx", "pids.updateTimer",
                                    "pids.create", "pids.bumpEpoch", "pidinfo.endTx", "pidinfo.maybeStart", "pidwindow.pushAndValidate"])],
-    rule="history = group of raw protocol requests started by `reset <partitions>` against a fresh one-broker kfake inside a testing/synctest bubble (virtual time), issued by two raw "
+    rule="history = group of raw protocol requests started by `reset <partitions> [<brokers>]` against a fresh kfake (one broker; two brokers in ~30% of the histories, with leader moves and the client turning from one broker to the other: NOT_LEADER answers, per-broker fetch sessions) inside a testing/synctest bubble (virtual time), issued by two raw "
          "clients (request versions pinned to Kafka 2.8, and the newest: produce v13 implicit partition addition, EndTxn v5 epoch bumps, fetch by topic id): Produce with hand-built "
          "batches of chosen byte size (no producer id / idempotent / transactional; correct next, retries of the last 1..7 batches, wrong sequences, stale and newer epochs, "
          "transactional bit on the wrong kind of producer), InitProducerID (first, repeated, KIP-360 with id+epoch), AddPartitionsToTxn (also without data), EndTxn commit/abort "
          "(also stale, repeated), DeleteRecords (in range, -1, out of range), sleeps that let transactions time out, Fetch (both isolation levels, offsets in/out of range and inside "
-         "batches, MaxBytes / PartitionMaxBytes from 1 byte up, sessionless / new session / incremental with moved offsets, added and forgotten partitions, wrong epochs and ids, session kill); "
+         "batches, MaxBytes / PartitionMaxBytes from 1 byte up, sessionless / new session / incremental with moved offsets, added and forgotten partitions, wrong epochs and ids, session kill; MinBytes > 0 with MaxWait: fetches that wait at the log end until the deadline or until a transaction timing out meanwhile puts enough marker / released bytes on a watched partition); "
          "after every request ListOffsets of every partition (log start, LSO, HWM). Scripted openings: interleaved aborted transactions then small-MaxBytes read_committed reads; "
          "a session over all partitions before any data. non-trivial = an operation executed while some partition's log is non-empty. distinct = distinct op lines.",
     trusted_base=["hand-written Lean model of kfake's partition log, coordinator and fetch sessions (Model.C32), tied by differential runs over raw protocol histories: every response field and the bounds after every step",
                   "Spec.C32 ledger (built from the implementation's own answers) and the transcription of Kafka's consumer-side aborted-transaction rule",
                   "harness/cmd/c32 (request building, response rendering, producer-id canonicalisation) and harness/sim bubbles (virtual time)",
                   "Lean compiler/runtime for the driver"],
-    assumptions=["one broker, one topic, up to 3 partitions; segments never roll (default segment.bytes), no compaction / retention",
-                 "producer epochs stay below the exhaustion threshold 32766 (bumpEpoch allocating a new producer id is not modelled)",
+    assumptions=["one topic, up to 3 partitions, one or two brokers (no followers; transaction requests always go to the right coordinator); segments never roll (default segment.bytes), no compaction / retention",
+                 "producer epochs stay below the exhaustion threshold 32766, except for a transaction timing out at the threshold (modelled: ended on the old producer, which is then forgotten; corpus 002)",
                  "fewer sessions than fetch.session.cache.slots; session epochs below 2^31",
-                 "Fetch MinBytes = 0 (no waiting fetches), CurrentLeaderEpoch = -1",
+                 "requests of a history are sequential: a waiting fetch (MinBytes) can only be woken by transaction timeouts, not by a concurrent produce; CurrentLeaderEpoch = -1",
                  "transaction expiry times of different producers never coincide and never fall exactly on the end of a sleep (the generator keeps them apart)"],
     run_timeout={"quick": 900, "thorough": 3400},
 )
 MANIFEST = {
     "text": "Lean theorems over ALL operation histories of the model of kfake's partition log: offsets are contiguous from the high watermark; LSO <= HWM, LSO = HWM when no transaction "
             "is open and = the smallest first offset of an open transaction otherwise; a read_committed fetch, after Kafka's consumer-side aborted-transaction rule, yields exactly the "
-            "committed data of the returned range and nothing at or beyond the LSO, for every offset and byte limit; a retried idempotent batch is answered with its original offset and "
+            "committed data of the returned range (proved for every reachable state, offset and byte limit from an invariant tying the aborted index to the log's abort markers) and nothing at or beyond the LSO; a retried idempotent batch is answered with its original offset and "
             "appends nothing (reusing C29's window refinement); an incremental fetch session omits a partition only if its bounds are what the session recorded and the walk found nothing "
             "to return. The model is tied to the code by differential runs of raw protocol histories against the real kfake (all response fields and ListOffsets bounds after every step), "
             "and an independent ledger Spec is evaluated on the implementation's answers.",
     "note": "Trusted: Lean kernel; the hand-written model (validated differentially, not verified); the ledger Spec and the transcription of the consumer rule; the harness. Not covered: "
-            "several brokers / leader moves, segment rolls, compaction and retention, waiting fetches (MinBytes), producer-epoch exhaustion, persistence.",
+            "more than two brokers, follower fetching, coordinator moves, segment rolls, compaction and retention, fetches woken by a concurrent produce, producer-epoch exhaustion beyond the timeout case, persistence.",
     "technique": "Lean 4 proof (invariants by induction over all histories, refinement reuse from C29) with differential correspondence against kfake over raw protocol histories in synctest bubbles",
 }
-PENDING = True  # model being updated to the fixed kfake (c5c680e)
